@@ -11,7 +11,7 @@ MAX_WITNESS_PER_KEY = 3
 
 
 def jsonable(x, depth=0):
-    if depth > 8:
+    if depth > 80:
         return repr(x)[:200]
     if x is None or isinstance(x, (bool, int, str)):
         return x
